@@ -72,9 +72,10 @@ func run(c *Case, st *stats) *vf.Failure {
 	var liveIDs []types.PageID
 	pins := map[types.PageID]*pin{}
 	var pinnedIDs []types.PageID
-	leaked := 0                          // frames lost for good (pinned page deallocated with isNoWait=true and the handle dropped, as HashJoinExecutor does)
+	leaked := 0
 	everEvictable := map[types.PageID]bool{} // dirty pages that were unpinned to zero (may have been evicted since)
 	deallocated := map[types.PageID]bool{}
+	deallocPending := map[types.PageID]bool{} // deallocated with isNoWait while pinned; the pin is still held
 
 	removeID := func(l []types.PageID, id types.PageID) []types.PageID {
 		var o []types.PageID
@@ -112,9 +113,13 @@ func run(c *Case, st *stats) *vf.Failure {
 				return vf.Failf("new-nil", "step %d: NewPage returned nil with %d of %d frames pinned", step, len(pins)+leaked, c.N)
 			}
 			id := pg.GetPageID()
-			if _, live := model[id]; live {
+			if _, held := pins[id]; held {
+				return vf.Failf("new-id-in-use", "step %d: NewPage handed out page id %d although a holder still pins the page with that id", step, id)
+			}
+			if _, live := model[id]; live && !deallocPending[id] {
 				return vf.Failf("new-id-in-use", "step %d: NewPage handed out page id %d which is still in use", step, id)
 			}
+			delete(deallocPending, id)
 			if deallocated[id] {
 				st.deallocReuse++
 				st.classes["id-reuse-after-dealloc"] = true
@@ -201,6 +206,10 @@ func run(c *Case, st *stats) *vf.Failure {
 				delete(pins, id)
 				pinnedIDs = removeID(pinnedIDs, id)
 				everEvictable[id] = true
+				if deallocPending[id] {
+					delete(model, id) // nobody may read it any more
+					delete(everEvictable, id)
+				}
 			}
 		case "flush":
 			if len(liveIDs) == 0 {
@@ -244,22 +253,18 @@ func run(c *Case, st *stats) *vf.Failure {
 			liveIDs = removeID(liveIDs, id)
 			deallocated[id] = true
 			st.classes["dealloc-nowait"] = true
-		case "dealloc-nowait-pinned": // hash-join shape on a page the caller still pins; the handle is dropped without unpin
-			if len(pinnedIDs) == 0 || len(pins)+leaked >= c.N-1 {
+		case "dealloc-nowait-pinned": // DeallocatePage(id,true) on a page the caller still pins (B-tree container / hash-join shape); the holder keeps using its handle and unpins later
+			if len(pinnedIDs) == 0 {
 				continue
 			}
 			id := pinnedIDs[op.T%len(pinnedIDs)]
-			p := pins[id]
-			if p.count != 1 {
+			if deallocPending[id] {
 				continue
 			}
 			bpm.DeallocatePage(id, true)
-			delete(pins, id)
-			pinnedIDs = removeID(pinnedIDs, id)
-			delete(model, id)
+			deallocPending[id] = true // still in use by its holder: must not be handed out, bytes must stay under the holder
 			liveIDs = removeID(liveIDs, id)
 			deallocated[id] = true
-			leaked++
 			st.classes["dealloc-nowait-pinned"] = true
 		case "reopen": // everything flushed and unpinned => a fresh pool on the same disk manager reads the model bytes
 			if len(pins) != 0 {
